@@ -66,6 +66,9 @@ def main():
             try:
                 mod.replay(ctx, rep)
             except harness.Failure as f:
+                if f.sig in ctx.known_open:
+                    print("KNOWN-FINDING: property=%s %s" % (pid, ctx.known_open[f.sig].get("what", f.sig)))
+                    return 0
                 print("VIOLATION property=%s replay=%s" % (pid, os.path.abspath(args.replay)))
                 print("  signature: %s" % f.sig)
                 print("  observed: %s" % json.dumps(f.observed, default=repr)[:400])
